@@ -2,6 +2,7 @@ import Nlmodel.Driver.Proto
 import Nlmodel.Model.Pipeline
 import Nlmodel.Driver.Instrumented
 import Nlmodel.Driver.Tables
+import Nlmodel.Driver.ObjOps
 open Nl
 
 /-- character classes: loaded from the table dumped by the harness from Rust's std
@@ -72,6 +73,7 @@ def handle (cc : CharClass) (line : String) : String :=
     | some t => (evalText cc b.toNat! t).show
     | none => "bad-hex"
   | ["tables"] => modelTables
+  | "obj" :: rest => handleObj rest
   | ["evalx", b, h] =>
     match unhexText h with
     | some t => evalTextX cc b.toNat! t
